@@ -1,4 +1,6 @@
 """C06 - SRT/WebVTT cues carry exactly the visible text over exactly its intervals."""
+from fractions import Fraction
+
 from hypothesis import strategies as st
 
 import ttconv.srt.writer as srt_writer
@@ -12,7 +14,7 @@ from vt.run import Part
 ID = "C06"
 LEVEL = "exploration"
 RULE = ("Hypothesis text-profile DocSpecs (1-3 regions, shaped so that several regions hold content in the same snapshot and several "
-        "div/p sit under one region; nested spans, br, ruby, white space in default mode and - labelled - preserve mode; lattice times; "
+        "div/p sit under one region; nested spans, br, ruby, white space in default mode and - labelled - preserve mode; lattice times, and - part subms - intervals shorter than a millisecond on and off the millisecond grid; "
         "unbounded final intervals) x writer configurations (SRT text_formatting on/off; VTT line_position, text_align, cue_id on/off). "
         "evaluations = (document, configuration) outputs; non-trivial = output with >= 2 cues one of which has >= 2 lines; distinct by "
         "(document, configuration) hash.")
@@ -22,7 +24,9 @@ ASSUMPTIONS = [
   "paragraphs containing xml:space=preserve text are compared by their non-white-space characters only (labelled class)",
   "ruby annotation (rt, rtc) and delimiter (rp) text is excluded, ruby base text included, as the statement says",
   "cues and payload lines that hold no visible character (only tags and/or white space) are ignored on both sides: they carry no text",
-  "intervals shorter than the millisecond resolution are not generated here (C07 / C18 cover 'does not fail')",
+  "part subms: an interval whose begin and end round to the same millisecond has no cue (begin < end is required by both formats, "
+  "C07); a shorter-than-a-millisecond interval that crosses a rounding boundary must be written as a 1 ms cue; cases where an end point "
+  "sits exactly on a half millisecond and one rounding would empty the cue are skipped (labelled ambiguous-rounding)",
 ]
 
 STYLE_PROPS = ["FontWeight", "FontStyle", "TextDecoration", "Color", "BackgroundColor", "TextAlign", "Direction", "DisplayAlign",
@@ -31,6 +35,7 @@ TEXT = gen_model.profile(style_density=(0, 2), max_nodes=36, fanout=3, br_styles
                          props=STYLE_PROPS, hiding=True, text_ws=True, xml_safe=True, doc_params=False, anim_counts=(0, 0, 0, 1),
                          exotic_numbers=False, edges=False, preserve=False, timed_regions=False, body_divs=(1, 5), time_density=8)
 TEXT_PRESERVE = gen_model.profile(**dict(TEXT, preserve=True, max_nodes=24))
+SUBMS = gen_model.profile(**dict(TEXT, arbitrary_times=True, max_nodes=14, time_density=3))
 SHRINK = gen_model.case_simplifications("spec")
 
 SRT_CFGS = {"srt": None, "srt-noformat": SRTWriterConfiguration(text_formatting=False)}
@@ -66,10 +71,28 @@ def shape(spec, mode):
   return spec
 
 
-def cases(prof):
+def tiny_times(spec, eps, offset):
+  """makes the intervals of some p / span shorter than a millisecond; with a non-zero offset their begin leaves the millisecond grid so
+  that begin and end may round to different milliseconds"""
+  if spec["body"] is None or eps is None:
+    return spec
+  for k, n in enumerate(gen_model.walk(spec["body"])):
+    if n["kind"] in ("p", "span") and n["begin"] is not None and (n["end"] is None or k % 2 == 0):
+      n["begin"] = n["begin"] + offset
+      n["end"] = n["begin"] + eps
+  return spec
+
+
+EPS = [Fraction(1, 3000), Fraction(1, 1001), Fraction(1, 2000), Fraction(3, 5000), Fraction(9, 10000)]
+OFFSETS = [Fraction(0), Fraction(0), Fraction(3, 5000), Fraction(1, 3000), Fraction(4, 10000), Fraction(7, 10000)]
+
+
+def cases(prof, sub_ms=False):
   def strat(tier):
-    return st.builds(lambda spec, mode, cfg: {"spec": shape(spec, mode), "cfg": cfg}, gen_model.docspecs(prof),
-                     st.sampled_from([0, 1, 1, 1, 2]), st.sampled_from(list(SRT_CFGS) + VTT_NAMES + ["srt", "vtt-l-a-I"]))
+    eps = st.sampled_from(EPS) if sub_ms else st.none()
+    return st.builds(lambda spec, mode, cfg, e, o: {"spec": tiny_times(shape(spec, mode), e, o), "cfg": cfg}, gen_model.docspecs(prof),
+                     st.sampled_from([0, 1, 1, 1, 2]), st.sampled_from(list(SRT_CFGS) + VTT_NAMES + ["srt", "vtt-l-a-I"]), eps,
+                     st.sampled_from(OFFSETS))
   return strat
 
 
@@ -92,6 +115,18 @@ def check(case, res):
   res.label("cfg:" + cfg)
   doc = gen_model.build(spec)
   exp, sig = cuecheck.expected_cues(doc, spec, per_region)
+  n_all = len(exp)
+  short = [c for c in exp if not c.unbounded and c.end - c.begin < Fraction(1, 1000)]
+  exp, dropped, ambiguous = cuecheck.resolve_sub_ms(exp)
+  if ambiguous:
+    res.label("ambiguous-rounding")
+    return
+  if dropped:
+    res.label("sub-millisecond-interval-without-cue")
+    if dropped < n_all:
+      res.label("sub-millisecond-interval-without-cue-among-others")
+  if len(short) > dropped:
+    res.label("sub-millisecond-interval-crossing-a-millisecond")
   if any("second-region" in ch.leaf[2] for c in exp for l in c.lines for ch in l[:1]):
     res.label("two-regions-with-content-at-once")
   if any("second-div" in ch.leaf[2] for c in exp for l in c.lines for ch in l[:1]):
@@ -126,4 +161,6 @@ PARTS = {
                                 "unbounded-final-interval", "cfg:srt", "cfg:vtt-L-A-I")),
   "preserve": Part("preserve", check, strategy=cases(TEXT_PRESERVE), n=(320, 16000), shrinker=SHRINK,
                    required_labels=("preserve-text-visible",)),
+  "subms": Part("subms", check, strategy=cases(SUBMS, True), n=(480, 24000), shrinker=SHRINK,
+                required_labels=("sub-millisecond-interval-without-cue-among-others", "sub-millisecond-interval-crossing-a-millisecond")),
 }
